@@ -448,6 +448,13 @@ static void run_case(int k, const Case& cs)
                 config.ns_res,
                 config.use_spreadrates ? config.rate_num_steps() : 0));
         }
+        // `clearafter K S`: before step K the caller drops the treatments dated after step S
+        // (Treatments::clear_after_step, computational steering)
+        int clear_at = -1, clear_step = 0;
+        if (!get(cs, "clearafter").empty()) {
+            clear_at = std::stoi(T("clearafter", 0));
+            clear_step = std::stoi(T("clearafter", 1));
+        }
         std::printf("%d sched spread=%s\n", k, bits(config.spread_schedule()).c_str());
         for (cur_step = 0; cur_step < nsteps; cur_step++) {
             tape.clear();
@@ -455,6 +462,8 @@ static void run_case(int k, const Case& cs)
                 if (use_weather)
                     model->environment().update_weather_coefficient(
                         weathers.at(cur_step % weathers.size()));
+                if (cs.entry == "pools" && clear_at == cur_step)
+                    treatments->clear_after_step((unsigned)clear_step);
                 if (cs.entry == "pools") {
                     model->run_step(
                         cur_step,
